@@ -127,6 +127,121 @@ def install_quiet_format():
         _PATCH_REGISTRATIONS[_REAL_STR_FORMAT] = quiet_format
 
 
+# ---------------------------------------------------------------------------
+# "fresh process" state per explored path
+# ---------------------------------------------------------------------------
+# CrossHair explores all paths of an obligation in ONE process.  Module-level state of
+# the analysed code (memo dicts, lru_cache, "last value" globals) would leak from one
+# path into the next; CrossHair itself sidesteps lru_cache by never caching under
+# tracing - which hides defects that consist of such a cache.  Here instead
+#   * functools.lru_cache on functions of the analysed package is emulated faithfully
+#     (unbounded memo keyed like the real one) and
+#   * every mutable module / class level container and every plain-data global of the
+#     package is put back to its import-time value at the start of every path,
+# so that each path sees what a fresh interpreter would see, and a history inside one
+# path (validate, change, validate again) sees the cache a real process would have.
+_STATE = {"snap": None, "lru": {}}
+_PLAIN = (type(None), bool, int, float, str, bytes, tuple, frozenset)
+
+
+def _holders(prefix):
+    import sys
+    out = []
+    for name, mod in list(sys.modules.items()):
+        if mod is None or not (name == prefix or name.startswith(prefix + ".")) or ".test" in name:
+            continue
+        out.append(mod)
+        for v in list(vars(mod).values()):
+            if isinstance(v, type) and getattr(v, "__module__", None) == name:
+                out.append(v)
+    return out
+
+
+def snapshot_process_state(prefix="nixio"):
+    import copy
+    from crosshair.tracers import NoTracing
+    with NoTracing():
+        conts, plains, names = [], [], {}
+        for h in _holders(prefix):
+            names[id(h)] = (h, set(vars(h).keys()))
+            for k, v in list(vars(h).items()):
+                if k.startswith("__"):
+                    continue
+                if isinstance(v, (dict, list, set)):
+                    try:
+                        conts.append((v, copy.deepcopy(v)))
+                    except Exception:  # noqa
+                        pass
+                elif isinstance(v, _PLAIN) and not isinstance(h, type):
+                    plains.append((h, k, v))
+        _STATE["snap"] = (conts, plains, names)
+        _STATE["prefix"] = prefix
+
+
+def fresh_process_state():
+    snap = _STATE["snap"]
+    if snap is None:
+        return True
+    import copy
+    from crosshair.tracers import NoTracing
+    with NoTracing():
+        _STATE["lru"].clear()
+        conts, plains, names = snap
+        for live, saved in conts:
+            try:
+                if live == saved:
+                    continue
+            except Exception:  # noqa
+                pass
+            fresh = copy.deepcopy(saved)
+            if isinstance(live, list):
+                live[:] = fresh
+            else:
+                live.clear()
+                live.update(fresh)
+        for h, k, v in plains:
+            if vars(h).get(k, v) is not v:
+                cur = vars(h).get(k)
+                if isinstance(cur, _PLAIN):
+                    setattr(h, k, v)
+        for h, known in names.values():
+            for k in [k for k in vars(h).keys() if k not in known]:
+                v = vars(h)[k]
+                if isinstance(v, _PLAIN + (dict, list, set)) and not k.startswith("__"):
+                    try:
+                        delattr(h, k)
+                    except Exception:  # noqa
+                        pass
+    return True
+
+
+def install_lru_model():
+    """replace CrossHair's 'never cache' treatment of functools.lru_cache by a faithful memo for
+    functions of the analysed package (others keep CrossHair's treatment)"""
+    import crosshair.core_and_libs  # noqa
+    from functools import _lru_cache_wrapper
+    from crosshair.core import _PATCH_REGISTRATIONS
+
+    def call(self, *a, **kw):
+        if not isinstance(self, _lru_cache_wrapper):
+            raise TypeError
+        w = self.__wrapped__
+        if not str(getattr(w, "__module__", "")).startswith(_STATE.get("prefix", "nixio")):
+            return w(*a, **kw)
+        memo = _STATE["lru"].setdefault(id(self), {})
+        key = (a, tuple(sorted(kw.items())))
+        try:
+            hit = key in memo
+        except TypeError:
+            return w(*a, **kw)
+        if hit:
+            return memo[key]
+        r = w(*a, **kw)
+        memo[key] = r
+        return r
+    _PATCH_REGISTRATIONS[_lru_cache_wrapper.__call__] = call
+
+
 def validate_slice_model():
     vals = [None] + list(range(-9, 10))
     steps = [None, 1, 2, 3, 4, -1, -2, -3, -4]
